@@ -20,9 +20,9 @@ import traceback
 
 from harness import common
 
-REQUIRED = ["reexport_same", "reexport_same_nested", "reexport_bindings", "reexport_idem", "reexport_identity",
-            "reexport_names_round_trip", "text_eq_pickle", "text_eq_pickle_not_syntactic",
-            "no_spurious_import_error", "transports_preserve_resolution", "reexport_no_new_class_refs"]
+REQUIRED = ["reexport_same", "reexport_same_nested", "reexport_bindings", "reexport_idem", "reexport_idem_not_full",
+            "reexport_identity", "reexport_names_round_trip", "text_eq_pickle", "text_eq_pickle_not_syntactic",
+            "no_spurious_import_error", "transports_preserve_resolution"]
 
 WORK = os.path.join(common.BUILD, "c06")
 TYPESHED = os.path.join(WORK, "typeshed")
